@@ -110,11 +110,21 @@ func TestVerifC17HTTP(t *testing.T) {
 	for i := range file {
 		file[i] = c17ByteAt(int64(i))
 	}
+	fileB := make([]byte, size)
+	for i := range fileB {
+		fileB[i] = file[i] ^ 0x5A
+	}
 	mode := "ok"
 	srv := httptest.NewServer(http.HandlerFunc(func(w http.ResponseWriter, r *http.Request) {
 		if r.Method == "HEAD" {
 			w.Header().Set("Content-Length", strconv.FormatInt(size, 10))
 			w.Header().Set("Accept-Ranges", "bytes")
+			return
+		}
+		if r.URL.Query().Get("id") == "B" {
+			// a second remote file under the same host and path, told apart by the query string only (piece gateways
+			// address pieces like this): same size, every byte differs
+			http.ServeContent(w, r, "f", time.Time{}, bytes.NewReader(fileB))
 			return
 		}
 		switch mode {
@@ -228,4 +238,61 @@ func TestVerifC17HTTP(t *testing.T) {
 		rr.Close()
 		out.Emit(o)
 	}
+	// two remote files open at the same time whose URLs differ in the query string only: each handle must return its own
+	// file's bytes (file B's bytes are recorded with the 0x5A mask removed, so both handles are judged by the same rule)
+	mode = "ok"
+	ra, _, errA := NewRemoteHTTPFileAsIoReaderAt(context.Background(), srv.URL+"/f?id=A")
+	rb, _, errB := NewRemoteHTTPFileAsIoReaderAt(context.Background(), srv.URL+"/f?id=B")
+	oa := c17Obs{Kind: "readat", Case: 200, Size: size, Nontriv: true}
+	ob := c17Obs{Kind: "readat", Case: 201, Size: size, Nontriv: true}
+	if errA != nil || errB != nil {
+		oa.Fatal = fmt.Sprintf("open: %v %v", errA, errB)
+		out.Emit(oa)
+		return
+	}
+	for step := 0; step < 24; step++ {
+		l := int64(1 + rng.Intn(300))
+		off := int64(rng.Intn(int(size - l)))
+		if step%4 == 3 {
+			off = size - l // reads ending at the end of the file
+		}
+		for who, rr := range []io.ReaderAt{ra, rb} {
+			if step%2 == 1 {
+				rr = []io.ReaderAt{rb, ra}[who]
+				who = 1 - who
+			}
+			c := c17Call{Op: "readat", S: off, L: l, Up: true, Bytes: []int{}}
+			if p := vt.Guard(func() {
+				buf := make([]byte, l)
+				n, err := rr.ReadAt(buf, off)
+				c.N = n
+				for _, b := range buf[:n] {
+					if who == 1 {
+						b ^= 0x5A
+					}
+					c.Bytes = append(c.Bytes, int(b))
+				}
+				switch {
+				case err == nil:
+					c.Res = "ok"
+				case err == io.EOF:
+					c.Res = "eof"
+				default:
+					c.Res, c.Err = "err", err.Error()
+				}
+			}); p != "" {
+				c.Res, c.Err = "panic", p
+			}
+			c.Err = []string{"file A", "file B (same path, other query)"}[who] + ": " + c.Err
+			if who == 0 {
+				oa.Calls = append(oa.Calls, c)
+			} else {
+				ob.Calls = append(ob.Calls, c)
+			}
+		}
+	}
+	ra.Close()
+	rb.Close()
+	out.Emit(oa)
+	out.Emit(ob)
 }
